@@ -84,6 +84,9 @@ pub struct RunCtx {
     /// which logs once more inside them before letting them close (index of the callback's log entry).
     #[cfg(feature = "tracing")]
     pub detained: RefCell<std::collections::VecDeque<(tracing::Span, usize)>>,
+    /// Waker of the helper task while it has nothing to do.
+    #[cfg(feature = "tracing")]
+    pub helper_waker: RefCell<Option<std::task::Waker>>,
 }
 
 thread_local! {
@@ -111,6 +114,8 @@ pub fn install_run(core: &Rc<SimCore>, plan: &Rc<Plan>, emit_logs: bool) -> Rc<R
         behalf: RefCell::new(None),
         #[cfg(feature = "tracing")]
         detained: RefCell::new(std::collections::VecDeque::new()),
+        #[cfg(feature = "tracing")]
+        helper_waker: RefCell::new(None),
     });
     RUN.with(|r| *r.borrow_mut() = Some(Rc::clone(&ctx)));
     ctx
@@ -334,7 +339,7 @@ async fn callback(
     ctx.max_in_callbacks.set(ctx.max_in_callbacks.get().max(ctx.in_callbacks.get()));
     let guard = InCb(Rc::clone(&ctx));
 
-    let log_n = |n: u8| {
+    let log_n = |n: u16| {
         if ctx.emit_logs {
             for _ in 0..n {
                 let t = format!("log{}", ctx.new_token());
@@ -369,6 +374,9 @@ async fn callback(
         let span = tracing::Span::current();
         if !span.is_none() {
             ctx.detained.borrow_mut().push_back((span, idx));
+            if let Some(w) = ctx.helper_waker.borrow_mut().take() {
+                w.wake();
+            }
         }
     }
 
@@ -431,7 +439,7 @@ impl SimWorld {
         ctx.max_in_callbacks.set(ctx.max_in_callbacks.get().max(ctx.in_callbacks.get()));
         let guard = InCb(Rc::clone(&ctx));
         // (a World constructor may log as well: it runs inside the before hook's or the first step's span)
-        let log_n = |n: u8| {
+        let log_n = |n: u16| {
             if ctx.emit_logs {
                 for _ in 0..n.min(4) {
                     let t = format!("log{}", ctx.new_token());
